@@ -45,11 +45,16 @@ static inline Bytes build_sfnt(const std::map<u32, Bytes> &tables) {
 
 // Same container, other legal layout: table data in a seeded random order, 4-byte aligned, and no padding after the last table
 // (the file ends with the last byte of whichever table comes last).
-static inline Bytes build_sfnt_layout(const std::map<u32, Bytes> &tables, u64 seed) {
+static inline Bytes build_sfnt_layout(const std::map<u32, Bytes> &tables_in, u64 seed) {
+    // seed % 8 == 3: the font carries 20..60 more (private, unused) tables than it needs - more than 40 in all;
+    // seed % 16 == 5 / 13: the sfnt version tag is 'true' / 'OTTO' instead of 0x00010000. All are well-formed sfnt containers.
+    std::map<u32, Bytes> tables = tables_in;
+    if (seed % 8 == 3) { unsigned extra = 20 + unsigned((seed >> 8) % 41); for (unsigned k = 0; k < extra; ++k) { char tg[5] = {'z', 'z', char('A' + k / 26), char('a' + k % 26), 0}; tables[mktag(tg)] = Bytes(4 + k % 9, u8(k)); } }
+    const u32 version = seed % 16 == 5 ? 0x74727565u : seed % 16 == 13 ? 0x4F54544Fu : 0x00010000u;
     std::vector<u32> order; for (auto &t : tables) order.push_back(t.first);
     Rng r(seed); for (size_t i = order.size(); i > 1; --i) std::swap(order[i - 1], order[r.below(u32(i))]);
     Bytes out; unsigned n = unsigned(tables.size());
-    put32(out, 0x00010000); put16(out, n);
+    put32(out, version); put16(out, n);
     unsigned es = 0, p2 = 1; while (p2 * 2 <= n) { p2 *= 2; ++es; }
     put16(out, p2 * 16); put16(out, es); put16(out, n * 16 - p2 * 16);
     std::map<u32, size_t> off; size_t o = 12 + size_t(n) * 16;
